@@ -147,6 +147,454 @@ def _map_repeat_normal_form(tree):
     return T().visit(tree)
 
 
+def _partial_constant_normal_form(tree):
+    """A module-level NAME = functools.partial(f, a, ..) that is bound once
+    is a pre-bound call: NAME(x, ..) is f(a, .., x, ..)."""
+    mods, names = set(), set()
+    for st in tree.body:
+        if isinstance(st, ast.Import):
+            for a in st.names:
+                if a.name == 'functools':
+                    mods.add(a.asname or 'functools')
+        elif isinstance(st, ast.ImportFrom) and st.module == 'functools':
+            for a in st.names:
+                if a.name == 'partial':
+                    names.add(a.asname or 'partial')
+    if not mods and not names:
+        return tree
+
+    def is_partial(e):
+        if not (isinstance(e, ast.Call) and e.args):
+            return False
+        f = e.func
+        return (isinstance(f, ast.Attribute) and f.attr == 'partial' and
+                isinstance(f.value, ast.Name) and f.value.id in mods) or (
+            isinstance(f, ast.Name) and f.id in names)
+
+    def stable(e):
+        if isinstance(e, ast.Constant):
+            return True
+        if isinstance(e, ast.Name):
+            return True
+        if isinstance(e, ast.Attribute):
+            return stable(e.value)
+        return False
+
+    cands = {}
+    for st in tree.body:
+        if isinstance(st, ast.Assign) and len(st.targets) == 1 and \
+                isinstance(st.targets[0], ast.Name) and is_partial(st.value):
+            v = st.value
+            if all(stable(a) for a in v.args) and all(
+                    k.arg and stable(k.value) for k in v.keywords):
+                cands[st.targets[0].id] = v
+    if not cands:
+        return tree
+    # bound exactly once in the whole module, never a parameter
+    stores = {}
+    for n in ast.walk(tree):
+        if isinstance(n, ast.Name) and isinstance(n.ctx, (ast.Store,
+                                                          ast.Del)):
+            stores[n.id] = stores.get(n.id, 0) + 1
+        elif isinstance(n, ast.arg):
+            stores[n.arg] = stores.get(n.arg, 0) + 2
+        elif isinstance(n, (ast.FunctionDef, ast.ClassDef,
+                            ast.AsyncFunctionDef)):
+            stores[n.name] = stores.get(n.name, 0) + 2
+        elif isinstance(n, (ast.Global, ast.Nonlocal)):
+            for x in n.names:
+                stores[x] = stores.get(x, 0) + 2
+    # the names the pre-bound pieces mention must be stable too
+    for name in list(cands):
+        v = cands[name]
+        used = {x.id for a in list(v.args) + [k.value for k in v.keywords]
+                for x in ast.walk(a) if isinstance(x, ast.Name)}
+        if stores.get(name, 0) != 1 or any(
+                stores.get(u, 0) > 1 and not any(
+                    isinstance(st, (ast.FunctionDef, ast.ClassDef)) and
+                    st.name == u for st in tree.body) for u in used):
+            del cands[name]
+    if not cands:
+        return tree
+
+    class T(ast.NodeTransformer):
+        def visit_Call(self, n):
+            self.generic_visit(n)
+            if isinstance(n.func, ast.Name) and n.func.id in cands and \
+                    isinstance(n.func.ctx, ast.Load):
+                v = cands[n.func.id]
+                import copy
+                pre = [copy.deepcopy(a) for a in v.args]
+                kw = [copy.deepcopy(k) for k in v.keywords]
+                given = {k.arg for k in n.keywords}
+                new = ast.Call(func=pre[0], args=pre[1:] + n.args,
+                               keywords=[k for k in kw
+                                         if k.arg not in given] + n.keywords)
+                for x in ast.walk(new):
+                    if not hasattr(x, 'lineno'):
+                        ast.copy_location(x, n)
+                for x in pre + [k.value for k in kw]:
+                    for y in ast.walk(x):
+                        ast.copy_location(y, n)
+                return ast.fix_missing_locations(ast.copy_location(new, n))
+            return n
+    return T().visit(tree)
+
+
+def _import_time_decoration_normal_form(tree):
+    """Decorators applied by module-level statements after the def:
+
+        specs.name('x')(f)                     (the specs decorators change
+        for f, n in ((f1, 'a'), (f2, 'b')):     the function they are given
+            specs.name('#' + n)(f)              and return it)
+        f = decorator(...)(f)
+
+    are the same as the decorator written on the def (outermost last
+    applied).  Loops over a constant table are unrolled first."""
+    import copy
+    defs = {st.name: st for st in tree.body
+            if isinstance(st, (ast.FunctionDef, ast.AsyncFunctionDef))}
+    if not defs:
+        return tree
+    consts = {}
+    for st in tree.body:
+        if isinstance(st, ast.Assign) and len(st.targets) == 1 and \
+                isinstance(st.targets[0], ast.Name):
+            consts[st.targets[0].id] = st.value
+
+    def application(st):
+        """(function name, decorator expression) of `D(f)` / `f = D(f)`"""
+        if isinstance(st, ast.Expr):
+            v, rebinding = st.value, None
+        elif isinstance(st, ast.Assign) and len(st.targets) == 1 and \
+                isinstance(st.targets[0], ast.Name):
+            v, rebinding = st.value, st.targets[0].id
+        else:
+            return None
+        if not (isinstance(v, ast.Call) and len(v.args) == 1 and
+                not v.keywords and isinstance(v.args[0], ast.Name) and
+                v.args[0].id in defs):
+            return None
+        fname = v.args[0].id
+        if rebinding is not None and rebinding != fname:
+            return None
+        dec = v.func
+        if rebinding is None:
+            # result dropped: only decorators that work on the function
+            # object itself (yaql.language.specs)
+            root = dec.func if isinstance(dec, ast.Call) else dec
+            if not (isinstance(root, ast.Attribute) and isinstance(
+                    root.value, ast.Name) and root.value.id == 'specs'):
+                return None
+        return fname, dec
+
+    def fold(e):
+        class F(ast.NodeTransformer):
+            def visit_BinOp(self, n):
+                self.generic_visit(n)
+                if isinstance(n.op, ast.Add) and isinstance(
+                        n.left, ast.Constant) and isinstance(
+                        n.right, ast.Constant) and isinstance(
+                        n.left.value, str) and isinstance(
+                        n.right.value, str):
+                    return ast.copy_location(ast.Constant(
+                        value=n.left.value + n.right.value), n)
+                return n
+        return F().visit(e)
+
+    def unroll(st):
+        """statements of a for loop over a constant table, or None"""
+        if not isinstance(st, ast.For) or st.orelse:
+            return None
+        it = st.iter
+        if isinstance(it, ast.Name) and it.id in consts:
+            it = consts[it.id]
+        if not isinstance(it, (ast.Tuple, ast.List)):
+            return None
+        tnames = [st.target.id] if isinstance(st.target, ast.Name) else (
+            [t.id for t in st.target.elts] if isinstance(
+                st.target, ast.Tuple) and all(
+                isinstance(t, ast.Name) for t in st.target.elts) else None)
+        if tnames is None:
+            return None
+        out = []
+        for row in it.elts:
+            vals = [row] if isinstance(st.target, ast.Name) else (
+                list(row.elts) if isinstance(row, (ast.Tuple, ast.List))
+                and len(row.elts) == len(tnames) else None)
+            if vals is None or not all(isinstance(
+                    v, (ast.Name, ast.Constant, ast.Attribute))
+                    for v in vals):
+                return None
+            env = dict(zip(tnames, vals))
+
+            class S(ast.NodeTransformer):
+                def visit_Name(self, n):
+                    if n.id in env and isinstance(n.ctx, ast.Load):
+                        return ast.copy_location(copy.deepcopy(env[n.id]),
+                                                 n)
+                    return n
+            for b in st.body:
+                out.append(fold(S().visit(copy.deepcopy(b))))
+        return out
+
+    changed = False
+    body = []
+    for st in tree.body:
+        stmts = unroll(st)
+        if stmts is not None and stmts and all(
+                application(x) is not None for x in stmts):
+            pass
+        elif application(st) is not None:
+            stmts = [st]
+        else:
+            body.append(st)
+            continue
+        for x in stmts:
+            fname, dec = application(x)
+            d = copy.deepcopy(dec)
+            for y in ast.walk(d):
+                ast.copy_location(y, defs[fname])
+            defs[fname].decorator_list.insert(0, d)
+        body.append(ast.copy_location(ast.Pass(), st))
+        changed = True
+    if changed:
+        tree.body = body
+        ast.fix_missing_locations(tree)
+    return tree
+
+
+def _local_alias_normal_form(tree):
+    """Inside a function, a name bound once, at the top level of the body,
+    to a pure attribute chain (`lt = outer.operator_lt`, `no_value =
+    utils.NO_VALUE`) or to functools.partial(f, a, ..) of stable pieces is
+    an abbreviation: its uses are rewritten to what it abbreviates (in the
+    function itself and in nested scopes that bind neither the name nor
+    what the chain starts from)."""
+    import copy
+    SCOPES = (ast.FunctionDef, ast.AsyncFunctionDef, ast.Lambda)
+
+    def own_nodes(f):
+        """nodes of f's own scope (nested defs/lambdas/classes: the node
+        itself only; decorators and defaults belong to the outer scope)"""
+        stack = list(f.body) if not isinstance(f, ast.Lambda) else [f.body]
+        while stack:
+            n = stack.pop()
+            yield n
+            if isinstance(n, SCOPES):
+                stack.extend(getattr(n, 'decorator_list', []))
+                stack.extend(n.args.defaults)
+                stack.extend(d for d in n.args.kw_defaults if d is not None)
+                continue
+            if isinstance(n, ast.ClassDef):
+                stack.extend(n.decorator_list)
+                stack.extend(n.bases)
+                stack.extend(n.body)     # class bodies: methods are SCOPES
+                continue
+            stack.extend(ast.iter_child_nodes(n))
+
+    def bound_in(f):
+        a = f.args
+        out = {x.arg for x in a.posonlyargs + a.args + a.kwonlyargs}
+        if a.vararg:
+            out.add(a.vararg.arg)
+        if a.kwarg:
+            out.add(a.kwarg.arg)
+        for n in own_nodes(f):
+            if isinstance(n, ast.Name) and isinstance(
+                    n.ctx, (ast.Store, ast.Del)):
+                out.add(n.id)
+            elif isinstance(n, (ast.FunctionDef, ast.AsyncFunctionDef,
+                                ast.ClassDef)):
+                out.add(n.name)
+            elif isinstance(n, ast.ExceptHandler) and n.name:
+                out.add(n.name)
+            elif isinstance(n, (ast.Import, ast.ImportFrom)):
+                for al in n.names:
+                    out.add((al.asname or al.name).split('.')[0])
+            elif isinstance(n, (ast.Global, ast.Nonlocal)):
+                out.update(n.names)
+        return out
+
+    def store_count(f, name):
+        a = f.args
+        c = sum(2 for x in a.posonlyargs + a.args + a.kwonlyargs
+                if x.arg == name)
+        for x in (a.vararg, a.kwarg):
+            if x is not None and x.arg == name:
+                c += 2
+        for n in own_nodes(f):
+            if isinstance(n, ast.Name) and n.id == name and isinstance(
+                    n.ctx, (ast.Store, ast.Del)):
+                c += 1
+            elif isinstance(n, (ast.FunctionDef, ast.AsyncFunctionDef,
+                                ast.ClassDef)) and n.name == name:
+                c += 2
+            elif isinstance(n, ast.ExceptHandler) and n.name == name:
+                c += 2
+            elif isinstance(n, (ast.Global, ast.Nonlocal)) and \
+                    name in n.names:
+                c += 2
+            elif isinstance(n, (ast.Import, ast.ImportFrom)) and any(
+                    (al.asname or al.name).split('.')[0] == name
+                    for al in n.names):
+                c += 2
+        return c
+
+    def chain_root(e):
+        while isinstance(e, ast.Attribute):
+            e = e.value
+        return e.id if isinstance(e, ast.Name) else None
+
+    def is_partial(e):
+        return isinstance(e, ast.Call) and e.args and unparse_safe(
+            e.func) in ('functools.partial', 'partial')
+
+    def unparse_safe(e):
+        try:
+            return ast.unparse(e)
+        except Exception:
+            return ''
+
+    def stable(e):
+        return isinstance(e, ast.Constant) or (
+            isinstance(e, (ast.Name, ast.Attribute)) and
+            chain_root(e) is not None)
+
+    def process(f):
+        if isinstance(f, ast.Lambda):
+            return
+        cands = {}
+        for st in f.body:
+            if not (isinstance(st, ast.Assign) and len(st.targets) == 1 and
+                    isinstance(st.targets[0], ast.Name)):
+                continue
+            n, v = st.targets[0].id, st.value
+            if isinstance(v, ast.Attribute) and chain_root(v) is not None:
+                roots = {chain_root(v)}
+                kind = 'chain'
+            elif is_partial(v) and all(stable(a) for a in v.args) and all(
+                    k.arg and stable(k.value) for k in v.keywords):
+                roots = {chain_root(a) for a in list(v.args) + [
+                    k.value for k in v.keywords]
+                    if not isinstance(a, ast.Constant)}
+                kind = 'partial'
+            else:
+                continue
+            if n in roots or store_count(f, n) != 1:
+                continue
+            # what it starts from is not re-bound in the function (a
+            # parameter, or a local bound once before the abbreviation)
+            ok = True
+            for r in roots:
+                c = store_count(f, r)
+                if c == 0 or c == 2:
+                    continue
+                if c == 1 and any(
+                        isinstance(p, ast.Assign) and any(
+                            isinstance(t, ast.Name) and t.id == r
+                            for t in p.targets)
+                        for p in f.body[:f.body.index(st)]):
+                    continue
+                ok = False
+            if not ok:
+                continue
+            if kind == 'chain':
+                # the attribute itself is not assigned in the function
+                text = unparse_safe(v)
+                if any(isinstance(x, ast.Attribute) and isinstance(
+                        x.ctx, (ast.Store, ast.Del)) and
+                        (text == unparse_safe(x) or
+                         text.startswith(unparse_safe(x) + '.'))
+                        for x in ast.walk(f)):
+                    continue
+            cands[n] = (kind, v, roots, st)
+        if not cands:
+            return
+
+        def rewrite(scope, blocked):
+            """rewrite uses in scope's own nodes; recurse into nested
+            scopes that bind none of the names involved"""
+            class T(ast.NodeTransformer):
+                def visit_FunctionDef(self, n):
+                    return self._scope(n)
+                visit_AsyncFunctionDef = visit_FunctionDef
+                visit_Lambda = visit_FunctionDef
+
+                def _scope(self, n):
+                    if n is scope:
+                        return self.generic_visit(n)
+                    # decorators/defaults are evaluated in this scope
+                    for fld in ('decorator_list',):
+                        if hasattr(n, fld):
+                            setattr(n, fld, [self.visit(d)
+                                             for d in getattr(n, fld)])
+                    n.args.defaults = [self.visit(d)
+                                       for d in n.args.defaults]
+                    n.args.kw_defaults = [
+                        self.visit(d) if d is not None else None
+                        for d in n.args.kw_defaults]
+                    inner_bound = bound_in(n)
+                    rewrite(n, blocked | inner_bound)
+                    return n
+
+                def visit_Call(self, n):
+                    if isinstance(n.func, ast.Name) and isinstance(
+                            n.func.ctx, ast.Load) and n.func.id in cands:
+                        kind, v, roots, st = cands[n.func.id]
+                        if kind == 'partial' and n.func.id not in blocked \
+                                and not (roots & blocked):
+                            n.args = [self.visit(a) for a in n.args]
+                            n.keywords = [self.visit(k) for k in n.keywords]
+                            pre = [copy.deepcopy(a) for a in v.args]
+                            kw = [copy.deepcopy(k) for k in v.keywords]
+                            given = {k.arg for k in n.keywords}
+                            new = ast.Call(
+                                func=pre[0], args=pre[1:] + n.args,
+                                keywords=[k for k in kw
+                                          if k.arg not in given] +
+                                n.keywords)
+                            for x in pre + [k.value for k in kw]:
+                                for y in ast.walk(x):
+                                    ast.copy_location(y, n)
+                            return ast.fix_missing_locations(
+                                ast.copy_location(new, n))
+                    return self.generic_visit(n)
+
+                def visit_Name(self, n):
+                    if isinstance(n.ctx, ast.Load) and n.id in cands and \
+                            n.id not in blocked:
+                        kind, v, roots, st = cands[n.id]
+                        if kind == 'chain' and not (roots & blocked):
+                            new = copy.deepcopy(v)
+                            for y in ast.walk(new):
+                                ast.copy_location(y, n)
+                            return new
+                    return n
+            if isinstance(scope, ast.Lambda):
+                scope.body = T().visit(scope.body)
+            else:
+                scope.body = [T().visit(x) for x in scope.body]
+
+        # partial abbreviations are only rewritten when every use is a call
+        for n, (kind, v, roots, st) in list(cands.items()):
+            if kind != 'partial':
+                continue
+            loads = [x for x in ast.walk(f) if isinstance(x, ast.Name) and
+                     x.id == n and isinstance(x.ctx, ast.Load)]
+            calls = [x for x in ast.walk(f) if isinstance(x, ast.Call) and
+                     isinstance(x.func, ast.Name) and x.func.id == n]
+            if len(loads) != len(calls):
+                del cands[n]
+        if cands:
+            rewrite(f, set())
+
+    for f in [n for n in ast.walk(tree)
+              if isinstance(n, (ast.FunctionDef, ast.AsyncFunctionDef))]:
+        process(f)
+    return ast.fix_missing_locations(tree)
+
+
 class FuncInfo:
     __slots__ = ('module', 'qualname', 'node', 'cls', 'parent_func',
                  'is_method')
@@ -212,8 +660,11 @@ class Module:
         self.path = path
         with open(path, encoding='utf-8') as f:
             self.src = f.read()
-        self.tree = _map_repeat_normal_form(_operator_normal_form(
-            ast.parse(self.src, filename=path)))
+        self.tree = _local_alias_normal_form(
+            _import_time_decoration_normal_form(
+                _partial_constant_normal_form(_map_repeat_normal_form(
+                    _operator_normal_form(
+                        ast.parse(self.src, filename=path))))))
         _attach_parents(self.tree)
         self.imports = {}     # local alias -> dotted target
         self.constants = {}   # top-level NAME = <expr>  (last assignment)
